@@ -203,6 +203,22 @@ C14UserOwnCost(p, us) ==
       LET names == UniNames(tin.T.uni, Cells(us[k], tin.rules.uni), CateOfSurface(us[k].s), 1)
           w == SumTo([j \in 1..Len(names) |-> WeightOfName(names[j])], 1, Len(names)) IN
       CostOK(M, p.user[k].c, w)
+(* the same two statements for the SEED rows: row i carries label i.  Its unigram ids were interned
+   before pruning and pruning DROPS the ids that kept no weight from the list, so what remains must be,
+   in template order, exactly the weighted ones among the expansions of the row's OWN features with the
+   category of the row's OWN first character *)
+WeightedName(name) == \E k \in 1..Len(m.umap) : m.umap[k].s = name /\ m.umap[k].id <= Len(m.uwi) /\ m.uwi[m.umap[k].id] # 0
+C18SeedUni ==
+   \A i \in 1..m.nseed :
+      LET want == UniNames(tin.T.uni, Cells(tin.seed[i], tin.rules.uni), CateOfSurface(tin.seed[i].s), 1)
+          ids  == m.fs[i].u IN
+      [j \in 1..Len(ids) |-> NameOf(m.umap, ids[j])] = SelectSeq(want, LAMBDA x : WeightedName(x))
+C14SeedOwnCost(p) ==
+   (Len(p.lex) = m.nseed /\ m.nseed = Len(tin.seed)) =>
+   \A i \in 1..m.nseed :
+      LET names == UniNames(tin.T.uni, Cells(tin.seed[i], tin.rules.uni), CateOfSurface(tin.seed[i].s), 1)
+          w == SumTo([j \in 1..Len(names) |-> WeightOfName(names[j])], 1, Len(names)) IN
+      CostOK(M, p.lex[i].c, w)
 C18User(bg, p, us) ==
    (Len(p.user) = Len(us) /\ Len(m.userlabels) = Len(us)) =>
    \A k \in 1..Len(us) :
@@ -231,6 +247,8 @@ Gen ==
             /\ (users[who] = users.mem => A("C14", "user-rows-trained-iff-000", C14User(p, users[who])))
             /\ (users[who] = users.mem => A("C14", "user-row-cost-is-the-weight-of-its-own-features", C14UserOwnCost(p, users[who])))
             /\ A("C16", "bigram-rows-and-costs-are-the-model-image", BgRowsOK(E.bg) /\ BgCostOK(E.bg))
+            /\ A("C14", "seed-row-cost-is-the-weight-of-its-own-features", C14SeedOwnCost(p))
+            /\ A("C18", "seed-rows-unigram-ids-name-their-own-expansions", C18SeedUni)
             /\ A("C18", "class-tuples-are-expansions", C18Classes(E.bg, p))
             /\ A("C18", "unknown-entries-class-tuples-are-expansions", C18Unk(E.bg, p))
             /\ (users[who] = users.mem => A("C18", "user-rows-feature-ids-name-their-own-expansions", C18User(E.bg, p, users[who]))))
